@@ -1417,7 +1417,11 @@ class UnitDatabase(Singleton):
         ratio = self.Convert(quantity_type, from_unit, to_unit, 1.0) - self.Convert(
             quantity_type, from_unit, to_unit, 0.0
         )
-        return value * ratio**exp
+        factor = ratio**exp
+        if isinstance(value, (list, tuple)):
+            # (a list or tuple operand paired with a numpy operand is handed over whole)
+            return type(value)(v * factor for v in value)
+        return value * factor
 
     def _DoOperationResultingInNewQuantity(
         self,
